@@ -27,7 +27,7 @@ impl Property for C40 {
         Meta {
             id: "C40",
             level: "exploration",
-            rule: "one evaluation = one pair (synchronous call, asynchronous call) of the same public operation - Builder::sign / sign with no_embed / Reader::with_stream / Reader::with_manifest_data_and_stream / Builder::add_ingredient_from_stream - on identical inputs, settings, signer key and seeded SDK randomness, the asynchronous form driven by the simulator's seeded executor (0-4 Pendings per leaf future; in a third of the runs 2-3 asynchronous operations share one Arc<Context> and are polled in PRNG order), under one of: no fault, the same one-shot stream fault at a seeded call index, the same cancel index of the progress callback, seeded benign chunking. Oracle: same error kind, or outputs that read back to the same report and code multiset. Non-trivial = both forms ran; distinct = (operation, format, binding, fault plan, executor schedule)",
+            rule: "one evaluation = one pair (synchronous call, asynchronous call) of the same public operation - Builder::sign / sign with no_embed / Reader::with_stream / Reader::with_manifest_data_and_stream / Builder::add_ingredient_from_stream - on identical inputs, settings, signer key (ed25519, es256/384/512 returning r||s or ASN.1 DER signatures, ps256) and seeded SDK randomness, the asynchronous form driven by the simulator's seeded executor (0-4 Pendings per leaf future; in a third of the runs 2-3 asynchronous operations share one Arc<Context> and are polled in PRNG order), under one of: no fault, the same one-shot stream fault at a seeded call index, the same cancel index of the progress callback, seeded benign chunking. Oracle: same error kind, or outputs that read back to the same report and code multiset. Non-trivial = both forms ran; distinct = (operation, format, binding, fault plan, executor schedule)",
             assumptions: &["workloads carry no CAWG identity assertions (documented async-only)", "the async signer wraps the same raw signer as the sync one"],
             real: &["every #[async_generic] pair on the exercised surface, Store::save_to_stream(_async), Claim::verify_claim(_async)"],
             stubbed: &["executor (seeded, single thread)", "async signer future", "caller streams (SimStream)"],
@@ -58,7 +58,9 @@ impl Property for C40 {
         if g.claim_version == 1 {
             def = sdk::simple_definition(&g.title);
         }
-        let mut sc = match ops::prepare(op, fmt, "ed25519", asset, def, &vctx) {
+        // signing algorithm and signature encoding vary too (ECDSA signers returning DER)
+        let alg = *r.pick(&["ed25519", "ed25519", "es256", "es384", "es512", "ps256", "es256-der", "es384-der", "es512-der"]);
+        let mut sc = match ops::prepare(op, fmt, alg, asset, def, &vctx) {
             Ok(s) => s,
             Err(e) => {
                 out.harness_error = Some(format!("prepare {}:{}: {e}", op.name(), fmt.name()));
@@ -67,7 +69,7 @@ impl Property for C40 {
         };
         sc.signed = rc.artefact("signed", || sc.signed.clone());
         sc.sidecar = rc.artefact("sidecar", || sc.sidecar.clone());
-        let tag = format!("{}:{}:{:?}", op.name(), fmt.name(), binding);
+        let tag = format!("{}:{}:{:?}:{alg}", op.name(), fmt.name(), binding);
         // count stream calls / callbacks fault-free (sync)
         let run = |is_async: bool, plan: FaultPlan, cancel_at: Option<usize>, chunk_rng: Option<Rng>, pend: u32| -> (Outcome, u64, usize) {
             c2pa::verif::set_random_seed(Some(seed0 ^ 1));
@@ -156,7 +158,7 @@ impl Property for C40 {
                             Reader::from_shared_context(&ctx).with_stream_async(mime, std::io::Cursor::new(bytes)).await.map(|r| Report::from_reader(&r).brief()).map_err(|e| err_kind(&e))
                         } else {
                             let mut b = Builder::from_shared_context(&ctx).with_definition(def).map_err(|e| err_kind(&e))?;
-                            let s = SimAsyncSigner { inner: sdk::make_signer("ed25519"), pend };
+                            let s = SimAsyncSigner { inner: sdk::make_signer(alg), pend };
                             let mut src = std::io::Cursor::new(bytes);
                             let mut dst = std::io::Cursor::new(Vec::new());
                             b.sign_async(&s, mime, &mut src, &mut dst).await.map(|_| "signed".to_string()).map_err(|e| err_kind(&e))
